@@ -137,8 +137,9 @@ class EValue(PyEcoreValue):
         # the previous partner is released
         if previous_value is not None and previous_value is not value:
             if eOpposite.many:
-                object.__getattribute__(previous_value, opposite_name) \
-                      .remove(owner, update_opposite=False)
+                # (not object.__getattribute__: the partner may be a proxy)
+                previous_value.__getattribute__(opposite_name) \
+                              .remove(owner, update_opposite=False)
             else:
                 previous_value.__getattribute__(opposite_name)  # Force load
                 partner_slot = previous_value.__dict__[opposite_name]
